@@ -114,6 +114,19 @@ def check_case(case):
     for t, o in zip(txs[:3], b3.vtx[:3]):
         if libx.call('calc_weight', o.calc_weight)[1] != 3 * len(W.enc_tx(t, False)) + len(W.enc_tx(t, True)) or o.GetTxid() != W.txid(t):
             raise Violation('weight/tx-order', 'calc_weight() / GetTxid() of a transaction differ after the block computations')
+    # the caller's list stays the caller's: a block built from a list (of immutable transactions) does not follow later
+    # additions to that list, and a second block built from the grown list is independent of the first
+    if n <= 40:
+        lst = [libx.mk_tx(t, False) for t in txs]
+        first = libx.call('construct-from-list', CBlock, vtx=lst)[1]
+        extra = libx.mk_tx({'version': 1, 'vin': [(b'\x0c' * 32, 7, b'', 1)], 'vout': [(3, b'\x51')], 'wit': None, 'locktime': 2}, False)
+        lst.append(extra)
+        second = libx.call('construct-from-list', CBlock, vtx=lst)[1]
+        if first.hashMerkleRoot != root or libx.call('calc_merkle_root', first.calc_merkle_root)[1] != root or len(first.vtx) != n or \
+                libx.call('GetWeight', first.GetWeight)[1] != want:
+            raise Violation('root/follows-callers-list', 'a block changed after the list it was built from grew')
+        if second.hashMerkleRoot != M.merkle_root([W.txid(t) for t in txs] + [extra.GetTxid()]):
+            raise Violation('root/second-block', 'second block built from the grown list has a wrong merkle root')
     # deserialised block computes the same trees
     d = CBlock.deserialize(b.serialize())
     if d.calc_merkle_root() != root or tuple(d.vMerkleTree)[-1] != root:
